@@ -1281,3 +1281,71 @@ func (p *kLsProvider) KeyValue(bucket string) (KeyValue, error) {
 	return p.kv, nil
 }
 
+
+// C09.the_record_is_gone_when_a_stop_with_delete_returns: a refresh that is in flight when StopWithContext begins may be
+// applied by the store without its new revision ever being recorded (the refresh loop leaves at the cancellation and
+// drops the answer). On a store with conditional deletes the shutdown then names the stale revision, the delete is
+// refused, and StopWithContext returns nil with the instance's own record still in place: the successor waits for the
+// TTL (pointed out by a sub-agent while seeding C09).
+func TestKnown_C09_DeleteKeyAfterAnInFlightRefresh(t *testing.T) {
+	const hb = 200 * time.Millisecond
+	store := newKLsStore()
+	kv := &kLsRD{kLsKV: &kLsKV{s: store, bucket: 10 * time.Second}}
+	e, err := newKVElection(&kLsProvider{kv: kv}, ElectionConfig{Bucket: "b", Group: "g", InstanceID: "A", TTL: 10 * time.Second, HeartbeatInterval: hb})
+	if err != nil {
+		t.Fatal(err)
+	}
+	if err := e.Start(context.Background()); err != nil {
+		t.Fatal(err)
+	}
+	WaitForLeader(t, e, true, 2*time.Second)
+	kv.slowAck.Store(true) // from now on a refresh is applied at once and acknowledged 150 ms later
+	deadline := time.Now().Add(2 * time.Second)
+	for kv.inFlight.Load() == 0 && time.Now().Before(deadline) {
+		time.Sleep(time.Millisecond)
+	}
+	if kv.inFlight.Load() == 0 {
+		t.Skip("no refresh seen in flight")
+	}
+	ctx, cancel := context.WithTimeout(context.Background(), 3*time.Second)
+	defer cancel()
+	if err := e.StopWithContext(ctx, StopOptions{DeleteKey: true}); err != nil {
+		t.Fatalf("StopWithContext: %v", err)
+	}
+	if ent, err := kv.Get("g"); err == nil && ent != nil {
+		t.Fatalf("VIOLATION-REPRODUCED: StopWithContext(DeleteKey) returned nil and the stopped owner's record is still there: %s (revision %d)", ent.Value(), ent.Revision())
+	}
+}
+
+// kLsRD adds conditional deletes to the lease store, and refreshes whose acknowledgement is slow.
+type kLsRD struct {
+	*kLsKV
+	slowAck  atomic.Bool
+	inFlight atomic.Int32
+}
+
+func (k *kLsRD) Update(key string, value []byte, rev uint64, opts ...interface{}) (uint64, error) {
+	r, err := k.kLsKV.Update(key, value, rev, opts...)
+	if k.slowAck.Load() {
+		k.inFlight.Add(1)
+		time.Sleep(150 * time.Millisecond)
+		k.inFlight.Add(-1)
+	}
+	return r, err
+}
+
+func (k *kLsRD) DeleteRevision(key string, rev uint64) error {
+	s := k.s
+	s.mu.Lock()
+	defer s.mu.Unlock()
+	rec := s.live(time.Now())
+	if rec == nil {
+		return errors.New("key not found")
+	}
+	if rec.rev != rev {
+		return errors.New("nats: wrong last sequence")
+	}
+	s.rec = nil
+	s.broadcast(nil)
+	return nil
+}
